@@ -91,51 +91,148 @@ Proof.
   exact (src_prev_next k i Hk Hi).
 Qed.
 
-(* ------------------------------------------------------------------ Rotate
-   The head of Deque.Rotate (Generated/Deque.v, fragment "Deque.Rotate#prefix": the early
-   returns, n %= q.count, modBits := len(q.buf) - 1 and the full-buffer fast path that only
-   moves head and tail) is the head of the model's rotate: the model is "run the translated
-   fragment; if it returned, the deque has the head and tail it assigned; otherwise move the
-   elements with the n and modBits it hands on". *)
+(* ------------------------------------------------------------------ memory
+   The translated source works on lists of tokens (interface{} values are Z, nil = 0): the
+   model is taken at A := Z, nilv := 0, and its getz / setz are go_index / go_update. *)
 From FV Require Import Lib.GoSem.
 
-Section Rotate.
-  Context {A : Type}.
-  Variable nilv : A.
+Lemma upd_list_upd (l : list Z) k v : upd l k v = list_upd l k v.
+Proof. reflexivity. Qed.   (* the same fixpoint *)
 
-  (* the element-moving loops of the model's rotate, once n and modBits are known *)
-  Definition rotate_moves (d : @deque A) (n modBits : Z) : option (@deque A) :=
-    match (if n <? 0 then rot_back_to_front nilv (Z.to_nat (- n)) (buf d) (head d) (tail d) modBits
-           else rot_front_to_back nilv (Z.to_nat n) (buf d) (head d) (tail d) modBits) with
-    | Some (b, h, t) => Some (mkDeque b h t (count d) (minCap d))
-    | None => None
-    end.
+Lemma getz_index (l : list Z) i :
+  go_index l i = match getz l i with Some x => Ok x | None => Panic end.
+Proof.
+  unfold go_index, getz, go_len, zlen.
+  destruct ((0 <=? i) && (i <? Z.of_nat (length l))) eqn:E; [|reflexivity].
+  apply andb_prop in E. destruct E as [E1 E2]. apply Z.leb_le in E1. apply Z.ltb_lt in E2.
+  rewrite (nth_error_nth' l 0) by lia. reflexivity.
+Qed.
 
-  Lemma src_rotate (d : @deque A) n0 :
-    cap d < 2 ^ 63 -> - 2 ^ 62 < count d < 2 ^ 62 -> - 2 ^ 63 <= n0 < 2 ^ 63 ->
-    - 2 ^ 62 < head d < 2 ^ 62 -> - 2 ^ 62 < tail d < 2 ^ 62 ->
-    rotate nilv d n0 =
-    match go_Deque_Rotate_prefix (head d) (tail d) (count d) (cap d) n0 with
-    | Ok (Returned _ (h, t)) => Some (mkDeque (buf d) h t (count d) (minCap d))
-    | Ok (Reached (n, modBits, _, _)) => rotate_moves d n modBits
-    | Panic | OutOfFuel => None
+Lemma setz_update (l : list Z) i v :
+  go_update l i v = match setz l i v with Some l' => Ok l' | None => Panic end.
+Proof.
+  unfold go_update, setz, go_len, zlen.
+  destruct ((0 <=? i) && (i <? Z.of_nat (length l))); reflexivity.
+Qed.
+
+Lemma setz_length (l : list Z) i v l' : setz l i v = Some l' -> zlen l' = zlen l.
+Proof.
+  unfold setz. destruct ((0 <=? i) && (i <? zlen l)); [|discriminate]. intros H. injection H as <-.
+  unfold zlen. f_equal. exact (list_upd_length l (Z.to_nat i) v).
+Qed.
+
+(* ------------------------------------------------------------------ Rotate
+   All of Deque.Rotate (Generated/Deque.v, "Deque.Rotate#prefix": the early returns,
+   n %= q.count, modBits, the full-buffer fast path, and the two element-moving loops with
+   their writes to q.buf, q.head, q.tail) is the model's rotate: whatever return statement is
+   reached, the deque then has the head, tail and buffer the translated source assigned; the
+   source panics (index out of range) exactly when the model crashes. *)
+
+Definition rot_state (r : frag (Z * Z * list Z) (Z * Z * Z * Z * list Z)) : Z * Z * list Z :=
+  match r with
+  | Returned _ w => w
+  | Reached (_, _, h, t, b) => (h, t, b)
+  end.
+
+Definition small62 (x : Z) : Prop := - 2 ^ 62 < x < 2 ^ 62.
+
+Section RotateLoops.
+  Variable m : Z.                      (* modBits *)
+  Hypothesis Hm : 0 <= m < 2 ^ 62.
+
+  Lemma land_m_range x : 0 <= Z.land x m <= m.
+  Proof.
+    split; [apply Z.land_nonneg; right; lia|].
+    assert (H0 : Z.ldiff (Z.ldiff m x) m = 0).
+    { apply Z.bits_inj'. intros n Hn. rewrite !Z.ldiff_spec, Z.bits_0.
+      destruct (Z.testbit m n), (Z.testbit x n); reflexivity. }
+    pose proof (Z.sub_nocarry_ldiff m (Z.ldiff m x) H0) as Hs.
+    assert (Hl : Z.ldiff m (Z.ldiff m x) = Z.land x m).
+    { apply Z.bits_inj'. intros n Hn. rewrite Z.land_spec, !Z.ldiff_spec.
+      destruct (Z.testbit m n), (Z.testbit x n); reflexivity. }
+    assert (Hp : 0 <= Z.ldiff m x) by (apply Z.ldiff_nonneg; left; lia).
+    lia.
+  Qed.
+
+  Lemma loop1_spec : forall k fuel h t b, (k < fuel)%nat -> small62 h -> small62 t -> Z.of_nat k < 2 ^ 62 ->
+    go_Deque_Rotate_prefix_loop1 fuel m (- Z.of_nat k, h, t, b) =
+    match rot_back_to_front 0 k b h t m with
+    | Some (b', h', t') => Ok (inl (0, h', t', b'))
+    | None => Panic
     end.
   Proof.
-    intros Hc Hn H0 Hh Ht. pose proof (cap_range d).
-    change (2 ^ 63) with 9223372036854775808 in *. change (2 ^ 62) with 4611686018427387904 in *.
-    unfold rotate, go_Deque_Rotate_prefix, rotate_moves. cbv zeta.
-    destruct (Z.leb_spec (count d) 1) as [|Hgt]; [destruct d; reflexivity|].
-    rewrite go_rem_ok by lia. cbn [GoSem.bind].
-    assert (Hr : - 4611686018427387904 < Z.rem n0 (count d) < 4611686018427387904).
-    { pose proof (Z.rem_bound_abs n0 (count d) ltac:(lia)). lia. }
-    rewrite (wrap64 (Z.rem n0 (count d))) by lia.
-    destruct (Z.rem n0 (count d) =? 0); [destruct d; reflexivity|].
-    rewrite (wrap64 (cap d - 1)) by lia.
-    destruct (head d =? tail d).
-    - rewrite (wrap64 (head d + Z.rem n0 (count d))), (wrap64 (tail d + Z.rem n0 (count d))) by lia.
-      reflexivity.
-    - destruct (Z.rem n0 (count d) <? 0).
-      + destruct (rot_back_to_front nilv _ _ _ _ _) as [[[b h] t]|]; reflexivity.
-      + destruct (rot_front_to_back nilv _ _ _ _ _) as [[[b h] t]|]; reflexivity.
+    unfold go_Deque_Rotate_prefix_loop1, small62.
+    change (2 ^ 62) with 4611686018427387904 in *.
+    induction k as [|k IH]; intros fuel h t b Hf Hh Ht Hk; (destruct fuel as [|fuel]; [lia|]).
+    - rewrite go_loop_S. cbn. reflexivity.
+    - rewrite go_loop_S. unfold go_Deque_Rotate_prefix_loop1_body at 1.
+      destruct (Z.ltb_spec (- Z.of_nat (S k)) 0); [|lia].
+      rewrite (wrap64 (h - 1)), (wrap64 (t - 1)) by lia.
+      cbn [rot_back_to_front]. unfold Model.bind.
+      pose proof (land_m_range (h - 1)). pose proof (land_m_range (t - 1)).
+      rewrite getz_index. destruct (getz b (Z.land (t - 1) m)) as [x|]; [|reflexivity]. cbn [GoSem.bind].
+      rewrite setz_update. destruct (setz b (Z.land (h - 1) m) x) as [b1|]; [|reflexivity]. cbn [GoSem.bind].
+      rewrite setz_update. destruct (setz b1 (Z.land (t - 1) m) 0) as [b2|]; [|reflexivity]. cbn [GoSem.bind].
+      rewrite (wrap64 (- Z.of_nat (S k) + 1)) by lia.
+      replace (- Z.of_nat (S k) + 1) with (- Z.of_nat k) by lia.
+      apply IH; lia.
   Qed.
-End Rotate.
+
+  Lemma loop2_spec : forall k fuel h t b, (k < fuel)%nat -> small62 h -> small62 t -> Z.of_nat k < 2 ^ 62 ->
+    go_Deque_Rotate_prefix_loop2 fuel m (Z.of_nat k, h, t, b) =
+    match rot_front_to_back 0 k b h t m with
+    | Some (b', h', t') => Ok (inl (0, h', t', b'))
+    | None => Panic
+    end.
+  Proof.
+    unfold go_Deque_Rotate_prefix_loop2, small62.
+    change (2 ^ 62) with 4611686018427387904 in *.
+    induction k as [|k IH]; intros fuel h t b Hf Hh Ht Hk; (destruct fuel as [|fuel]; [lia|]).
+    - rewrite go_loop_S. cbn. reflexivity.
+    - rewrite go_loop_S. unfold go_Deque_Rotate_prefix_loop2_body at 1.
+      destruct (Z.gtb_spec (Z.of_nat (S k)) 0); [|lia].
+      cbn [rot_front_to_back]. unfold Model.bind.
+      rewrite getz_index. destruct (getz b h) as [x|]; [|reflexivity]. cbn [GoSem.bind].
+      rewrite setz_update. destruct (setz b t x) as [b1|]; [|reflexivity]. cbn [GoSem.bind].
+      rewrite setz_update. destruct (setz b1 h 0) as [b2|]; [|reflexivity]. cbn [GoSem.bind].
+      rewrite (wrap64 (h + 1)), (wrap64 (t + 1)), (wrap64 (Z.of_nat (S k) - 1)) by lia.
+      replace (Z.of_nat (S k) - 1) with (Z.of_nat k) by lia.
+      pose proof (land_m_range (h + 1)). pose proof (land_m_range (t + 1)).
+      apply IH; lia.
+  Qed.
+End RotateLoops.
+
+Lemma src_rotate (d : @deque Z) n0 fuel :
+  0 < cap d < 2 ^ 62 -> small62 (count d) -> - 2 ^ 63 <= n0 < 2 ^ 63 ->
+  small62 (head d) -> small62 (tail d) -> (Z.to_nat (Z.abs (count d)) < fuel)%nat ->
+  match go_Deque_Rotate_prefix fuel (head d) (tail d) (buf d) (count d) n0 with
+  | Ok r => let '(h, t, b) := rot_state r in rotate 0 d n0 = Some (mkDeque b h t (count d) (minCap d))
+  | Panic => rotate 0 d n0 = None
+  | OutOfFuel => False
+  end.
+Proof.
+  unfold small62. intros Hc Hn H0 Hh Ht Hf.
+  change (2 ^ 63) with 9223372036854775808 in *. change (2 ^ 62) with 4611686018427387904 in *.
+  unfold rotate, go_Deque_Rotate_prefix. cbv zeta.
+  destruct (Z.leb_spec (count d) 1) as [|Hgt]; [destruct d; reflexivity|].
+  rewrite go_rem_ok by lia. cbn [GoSem.bind].
+  assert (Hr : Z.abs (Z.rem n0 (count d)) < count d).
+  { pose proof (Z.rem_bound_abs n0 (count d) ltac:(lia)). lia. }
+  rewrite (wrap64 (Z.rem n0 (count d))) by lia.
+  destruct (Z.rem n0 (count d) =? 0) eqn:E0; [destruct d; reflexivity|].
+  unfold go_len. fold (zlen (buf d)). fold (cap d).
+  rewrite (wrap64 (cap d - 1)) by lia.
+  destruct (head d =? tail d).
+  - rewrite (wrap64 (head d + Z.rem n0 (count d))), (wrap64 (tail d + Z.rem n0 (count d))) by lia.
+    reflexivity.
+  - assert (Hm : 0 <= cap d - 1 < 4611686018427387904) by lia.
+    destruct (Z.ltb_spec (Z.rem n0 (count d)) 0) as [Hneg|Hpos]; unfold Model.bind.
+    + pose proof (loop1_spec (cap d - 1) Hm (Z.to_nat (- Z.rem n0 (count d))) fuel (head d) (tail d) (buf d)) as L.
+      replace (- Z.of_nat (Z.to_nat (- Z.rem n0 (count d)))) with (Z.rem n0 (count d)) in L by lia.
+      rewrite L by (unfold small62; lia).
+      destruct (rot_back_to_front 0 _ _ _ _ _) as [[[b h] t]|]; reflexivity.
+    + pose proof (loop2_spec (cap d - 1) Hm (Z.to_nat (Z.rem n0 (count d))) fuel (head d) (tail d) (buf d)) as L.
+      replace (Z.of_nat (Z.to_nat (Z.rem n0 (count d)))) with (Z.rem n0 (count d)) in L by lia.
+      rewrite L by (unfold small62; lia).
+      destruct (rot_front_to_back 0 _ _ _ _ _) as [[[b h] t]|]; reflexivity.
+Qed.
